@@ -58,10 +58,20 @@ def reader_core(ctx, src):
     # subtraction): declared up front and lowered wherever they occur; they are inlined (not replaced) in every group
     SIMPLE = ('where', 'size', 'remaining', 'eof')
     u.raw(''.join('%s %s(const StringReader* self);\n' % ('bool' if n == 'eof' else 'size_t', M(n)) for n in SIMPLE))
+    u.raw('#include "stubs/RW_pget.h"\n')
     _function = u.function
 
+    # `return ... this->pget<W>(args) ...;` with W a byte-order wrapper type, inside another accessor (type-directed; stubs/RW_pget.h)
+    def _pget_value(mo):
+        pre, sg, bits, args, post = mo.group(1), mo.group(3), mo.group(4), mo.group(5), mo.group(6)
+        W = mo.group(2)
+        if ',' not in args:
+            args += ', %d /* default argument sizeof(T) */' % (int(bits) // 8)
+        return ('{ %sint%s_t verif_v = verif_pget_%s(self, %s); if (verif_exc) return 0; return %sverif_v%s; }' % (sg, bits, W, args, pre, post))
+    PGET_VALUE = Rule(r'return ([^;]*?)self->pget<((?:be|le)_(u?)int(16|32|64)_t)>\(([^;()]*)\)([^;]*);', _pget_value, count=None, regex=True)
+
     def function_with_observers(*a, **kw):
-        kw['rules'] = list(kw.get('rules') or []) + [callopt(n) for n in SIMPLE]
+        kw['rules'] = list(kw.get('rules') or []) + [PGET_VALUE] + [callopt(n) for n in SIMPLE]
         return _function(*a, **kw)
     u.function = function_with_observers
     # --- Strings.hh, inline members ---
